@@ -63,6 +63,10 @@ def positions(chain, base):
                 ("union_member", OPT(W), OPT(T))]
     if chain[0] != "classvar":
         out.append(("class_field", {"k": "cls", "c": "FW"}, {"k": "cls", "c": "FP"}))
+        # the wrapped member follows a plain member of the same type: reached a second time in one graph
+        out.append(("class_field_after_plain", {"k": "cls", "c": "GW"}, {"k": "cls", "c": "GP"}))
+    if chain[0] not in ("final", "classvar"):
+        out.append(("tuple_plain_then_wrapped", {"k": "tup", "xs": [T, LIST(W), W]}, {"k": "tup", "xs": [T, LIST(T), T]}))
     if inner and base.get("k") == "cls" and base.get("c") == "R1":
         out.append(("recursive_field", {"k": "cls", "c": "RW"}, {"k": "cls", "c": "RP"}))
     return out
@@ -75,6 +79,8 @@ def case_defs(chain, base):
     if chain[0] != "classvar":
         defs["FW"] = {"flavour": "dataclass", "module": "m1", "py": "FW", "fields": [["n", P("int"), False], ["x", W, False]]}
         defs["FP"] = {"flavour": "dataclass", "module": "m1", "py": "FP", "fields": [["n", P("int"), False], ["x", base, False]]}
+        defs["GW"] = {"flavour": "dataclass", "module": "m1", "py": "GW", "fields": [["a", base, False], ["x", W, False]]}
+        defs["GP"] = {"flavour": "dataclass", "module": "m1", "py": "GP", "fields": [["a", base, False], ["x", base, False]]}
     if inner:
         defs["RW"] = {"flavour": "dataclass", "module": "m1", "py": "RW",
                       "fields": [["v", P("int"), False], ["nxt", OPT(wrap(inner, {"k": "cls", "c": "RW"})), True]]}
@@ -99,7 +105,7 @@ def ma(ref, x, depth=0):
 def norm(out):
     """Twin classes FW/FP and RW/RP are the same class up to their name."""
     s = json.dumps(out)
-    for a, b in (("m1.FW", "m1.F"), ("m1.FP", "m1.F"), ("m1.RW", "m1.R"), ("m1.RP", "m1.R")):
+    for a, b in (("m1.FW", "m1.F"), ("m1.FP", "m1.F"), ("m1.RW", "m1.R"), ("m1.RP", "m1.R"), ("m1.GW", "m1.G"), ("m1.GP", "m1.G")):
         s = s.replace(a, b)
     return json.loads(s)
 
